@@ -1,7 +1,7 @@
 #!/usr/bin/env python3
 """Confirms a seeded change in a scratch worktree of /repo (HEAD) and files it under /verif/seeded/<id>/:
    the change compiles, the existing suite passes with it, the demonstration fails with it and passes without it.
-   usage: confirm_seed.py <prop> <n> <out_dir> [--detected-by Cxx,Cyy] [--needs "..."]"""
+   usage: confirm_seed.py <prop> <n> <out_dir> [<id prefix, e.g. R2_>]"""
 import json, os, re, shutil, subprocess, sys, time
 
 ENV = dict(os.environ, GOFLAGS="-mod=mod", GOPROXY="off", GOSUMDB="off", GOTOOLCHAIN="local")
@@ -31,7 +31,7 @@ def suite(wt):
 
 def main():
     prop, n, src = sys.argv[1], sys.argv[2], sys.argv[3]
-    sid = "%s_m%s" % (prop, n)
+    sid = "%s%s_m%s" % (sys.argv[4] if len(sys.argv) > 4 else "", prop, n)
     patch = os.path.join(src, "patch_rebased.diff") if os.path.exists(os.path.join(src, "patch_rebased.diff")) else os.path.join(src, "patch.diff")
     demo = os.path.join(src, "demo_test.go")
     notes = open(os.path.join(src, "notes.md")).read() if os.path.exists(os.path.join(src, "notes.md")) else ""
